@@ -45,3 +45,79 @@ def styled (style : NameStyle) (name : Bytes) : Bytes :=
 def weekOf (n : Nat) : Nat := (n - 1) / 7 + 1
 
 end SqlDt.Spec
+
+namespace SqlDt.Spec
+open SqlDt Gen
+
+/-- Components of a value as the picture tokens see them. `dow0` = weekday with 0 = Sunday (date types only). -/
+structure Comps where
+  year : Int := 1
+  month : Int := 0
+  day : Int := 1
+  hour : Int := 0
+  minute : Int := 0
+  sec : Int := 0
+  usec : Int := 0
+  neg : Bool := false
+  dow0 : Int := 0
+  doy : Int := 1          -- ordinal day in the year (date types only)
+
+def hour12Of (h : Int) : Int := (h + 11) % 12 + 1
+
+/-- Fraction of a second truncated (not rounded) to `p` digits (p ≤ 6), or extended with zeros (p > 6). -/
+def fractionOf (usec : Int) (p : Nat) : Int :=
+  if p ≤ 6 then usec / (10 ^ (6 - p) : Nat) else usec * (10 ^ (p - 6) : Nat)
+
+def meridianText (style : AmPmStyle) (hour : Int) : Bytes :=
+  let am := hour < 12
+  match style with
+  | .Upper => if am then lit' "AM" else lit' "PM"
+  | .Lower => if am then lit' "am" else lit' "pm"
+  | .UpperDot => if am then lit' "A.M." else lit' "P.M."
+  | .LowerDot => if am then lit' "a.m." else lit' "p.m."
+where lit' (s : String) : Bytes := s.toList.map Char.toNat
+
+/-- What a token renders to for a value of type `ty` with components `c`; `none` = the token does not apply
+    to the type (formatting must fail). The applicability matrix is spelled out here, token by token. -/
+def renderField (ty : Ty) (c : Comps) (f : Field) : Option Bytes :=
+  let hasDate := ty = .D ∨ ty = .TS ∨ ty = .OD
+  let hasTime := ty = .T ∨ ty = .TS ∨ ty = .OD ∨ ty = .DT
+  let clock12 := ty = .T ∨ ty = .TS ∨ ty = .OD
+  let hasFraction := ty = .T ∨ ty = .TS ∨ ty = .DT
+  match f with
+  | .Invalid => none
+  | .Blank n => some (List.replicate n 32)
+  | .Hyphen => some [45] | .Colon => some [58] | .Slash => some [47] | .Backslash => some [92]
+  | .Comma => some [44] | .Dot => some [46] | .Semicolon => some [59] | .T => some [84]
+  | .Year n =>
+    if hasDate then some (pad n (c.year % (10 ^ n : Nat)).toNat)
+    else if ty = .YM then some (pad n c.year.toNat) else none
+  | .Month => if hasDate ∨ ty = .YM then some (pad 2 c.month.toNat) else none
+  | .Day => if hasDate ∨ ty = .DT then some (pad 2 c.day.toNat) else none
+  | .Hour24 => if hasTime then some (pad 2 c.hour.toNat) else none
+  | .Hour12 => if clock12 then some (pad 2 (hour12Of c.hour).toNat) else none
+  | .Minute => if hasTime then some (pad 2 c.minute.toNat) else none
+  | .Second => if hasTime then some (pad 2 c.sec.toNat) else none
+  | .Fraction p => if hasFraction then some (pad (p.getD 6) (fractionOf c.usec (p.getD 6)).toNat) else none
+  | .AmPm style => if clock12 then some (meridianText style c.hour) else none
+  | .MonthName style => if hasDate then some (styled style (monthNames.getD (c.month - 1).toNat [])) else none
+  | .DayName style => if hasDate then some (styled style (dayNames.getD c.dow0.toNat [])) else none
+  | .DayOfWeek => if hasDate then some (pad 1 (c.dow0 + 1).toNat) else none
+  | .DayOfYear => if hasDate then some (pad 3 c.doy.toNat) else none
+  | .WeekOfMonth => if hasDate then some (pad 1 (weekOf c.day.toNat)) else none
+  | .WeekOfYear => if hasDate then some (pad 2 (weekOf c.doy.toNat)) else none
+
+/-- The whole text: sign for intervals (once, first), then the tokens in picture order; `none` if any token is inapplicable. -/
+def renderAll (ty : Ty) (c : Comps) : List Field → Option Bytes
+  | [] => some []
+  | f :: fs => do
+    let a ← renderField ty c f
+    let b ← renderAll ty c fs
+    pure (a ++ b)
+
+def render (ty : Ty) (c : Comps) (fields : List Field) : Option Bytes := do
+  let body ← renderAll ty c fields
+  let sign : Bytes := if c.neg then [45] else if ty = .YM ∨ ty = .DT then [43] else []
+  pure (sign ++ body)
+
+end SqlDt.Spec
